@@ -12,10 +12,11 @@ from vf.tlc import tla_set
 
 SCENARIOS = ["SetAttrPublic", "SetAttrPrivate", "SetAttrShrink", "LoginWrongUser", "LoginWrongSO", "LoginRightAfterWrong",
              "InitPIN", "SetPINSO", "SetPINUser", "CreateObjectPublic", "CreateObjectPrivate", "GenerateKey",
-             "GenerateKeyPair", "CopyObject", "DestroyObject", "DeriveKey", "UnwrapKey", "InitTokenFresh", "InitTokenReinit"]
+             "GenerateKeyPair", "CopyObject", "DestroyObject", "DeriveKey", "UnwrapKey", "InitTokenFresh", "InitTokenReinit",
+             "ReadAll", "ReadAllRO"]
 QUICK = ["SetAttrPublic", "SetAttrPrivate", "SetAttrShrink", "LoginWrongUser", "LoginRightAfterWrong", "InitPIN",
          "SetPINUser", "CreateObjectPrivate", "GenerateKeyPair", "CopyObject", "DestroyObject", "InitTokenFresh",
-         "InitTokenReinit"]
+         "InitTokenReinit", "ReadAll", "ReadAllRO"]
 DEVIATIONS = {"EmptyObject", "EmptyToken", "PartialCreate", "PartialNewToken"}
 
 
